@@ -121,6 +121,8 @@ def gen_case(rng, kind):
     if kind == "legacy":
         for d in (-1, 0, 1):
             urs.add(opt + d)
+        for u in (ONE - 1, ONE, ONE + 1, ONE + ONE // 200, 3 * ONE // 2):      # at and beyond 100% (the legacy curve extrapolates)
+            urs.add(u)
     for _ in range(8):
         urs.add(rng.randrange(0, ONE + 1))
     urs.add(rng.choice([I128_MAX, I128_MIN, 2 * ONE, -ONE, 1 << 100]))
@@ -163,8 +165,32 @@ def nontrivial(suite, case, impl):
     return v == "OK" and len(bases) >= 3
 
 
+def oracle_legacy(cfg, urs, outs):
+    """legacy three-point curve accepted by validate(): defined, non-decreasing and borrow >= base for every utilisation from
+    0 to 200% whenever the numbers are far from the I80F48 range (rates below 2^20, optimal utilisation in [0.1%, 99.9%])"""
+    fees_ok = all(0 <= f < (1 << 60) for f in cfg["fees"]) and (not cfg["prog_on"] or (0 <= cfg["pf"] < (1 << 60) and 0 <= cfg["pr"] < (1 << 60)))
+    benign = fees_ok and 0 < cfg["pl"] < (ONE << 20) and cfg["pl"] < cfg["mx"] < (ONE << 20) and ONE // 1000 <= cfg["opt"] <= ONE - ONE // 1000
+    prev = None
+    for ur, o in zip(urs, outs):
+        if not (0 <= ur <= 2 * ONE):
+            continue
+        if o in ("NONE", "PANIC"):
+            if benign:
+                return {"key": "accepted-curve-fails", "what": f"legacy curve: calc_interest_rate returned {o} at ur={ur} ({ur / ONE:.4f}) for an accepted curve with benign numbers"}
+            continue
+        base, lend, borrow = map(int, o.split()[:3])
+        if prev is not None and base < prev:
+            return {"key": "not-monotone", "what": f"legacy curve: base decreased to {base} (from {prev}) at ur={ur}"}
+        prev = base
+        if fees_ok and borrow < base:
+            return {"key": "borrow-below-base", "what": f"legacy curve: borrow rate {borrow} < base {base} at ur={ur}"}
+    return None
+
+
 def oracle(suite, case, impl):
     cfg, urs, v, outs = parse(case, impl)
+    if cfg["ct"] == 0 and v == "OK":
+        return oracle_legacy(cfg, urs, outs)
     if cfg["ct"] != 1 or v != "OK":
         return None
     fees_ok = all(0 <= f < (1 << 78) for f in cfg["fees"]) and (not cfg["prog_on"] or (0 <= cfg["pf"] < (1 << 78) and 0 <= cfg["pr"] < (1 << 78)))
